@@ -2,6 +2,9 @@ package hx
 
 import (
 	"fmt"
+	"io"
+	"net"
+	"net/http"
 	"os"
 	"runtime"
 	"strings"
@@ -121,6 +124,9 @@ type FullOpts struct {
 	Consumer *Consumer
 	EH       *EventHandler
 	ReadyTimeout time.Duration
+	// WhileStarting runs concurrently with Start() before readiness (e.g. to feed the first
+	// membership information to a dynamic membership through the HTTP API).
+	WhileStarting func()
 }
 
 // StartFull creates the Dcp exactly as an application would and runs Start() in a goroutine.
@@ -152,6 +158,9 @@ func (e *Env) StartFull(cfg *config.Dcp, o FullOpts) (*Full, error) {
 		d.Start()
 		e.Log.Add(evlog.Rec{K: "ctl.start.ret", VB: -1})
 	}()
+	if o.WhileStarting != nil {
+		go o.WhileStarting()
+	}
 	select {
 	case <-d.WaitUntilReady():
 		e.Log.Add(evlog.Rec{K: "ctl.ready", VB: -1})
@@ -245,4 +254,34 @@ func ConfirmHang(l *evlog.Log, gap time.Duration) (bool, []string) {
 		return strings.Join(o, "|")
 	}
 	return norm(a) == norm(b), b
+}
+
+// FreePort returns a TCP port that was free a moment ago.
+func FreePort() int {
+	l, err := net.Listen("tcp", "127.0.0.1:0")
+	if err != nil {
+		return 0
+	}
+	p := l.Addr().(*net.TCPAddr).Port
+	l.Close()
+	return p
+}
+
+// HTTPDo performs a request against the client's HTTP API.
+func HTTPDo(method, url string, body string, timeout time.Duration) (int, string, error) {
+	req, err := http.NewRequest(method, url, strings.NewReader(body))
+	if err != nil {
+		return 0, "", err
+	}
+	if body != "" {
+		req.Header.Set("Content-Type", "application/json")
+	}
+	c := &http.Client{Timeout: timeout}
+	resp, err := c.Do(req)
+	if err != nil {
+		return 0, "", err
+	}
+	defer resp.Body.Close()
+	b, _ := io.ReadAll(resp.Body)
+	return resp.StatusCode, string(b), nil
 }
